@@ -383,6 +383,9 @@ def run_chunk(spec, ctx):
         if reach.ok:
             ctx.count("reach.rmfv.antiparallel-branch", reach.counts["if"])
             ctx.count("reach.rmfv.rodrigues-branch", reach.counts["else"])
+        else:
+            ctx.count("reach.rmfv.antiparallel-branch.anchor-not-found")
+            ctx.count("reach.rmfv.rodrigues-branch.anchor-not-found")
         for k, v in contracts.COUNTS.items():
             ctx.count("contract." + k, v)
         for k, v in contracts.VACUOUS.items():
